@@ -13,6 +13,7 @@ import (
 	"math/big"
 	"os"
 	"strings"
+	"sync"
 	"time"
 
 	"github.com/martian-lang/martian/martian/syntax"
@@ -469,7 +470,15 @@ type Case struct {
 
 var lookup *syntax.TypeLookup
 
-func getType(t tid) syntax.Type { return lookup.Get(t) }
+// lookup.Get builds and caches collection types on first use, which is not
+// safe from several workers at once.
+var lookupMu sync.Mutex
+
+func getType(t tid) syntax.Type {
+	lookupMu.Lock()
+	defer lookupMu.Unlock()
+	return lookup.Get(t)
+}
 
 func checkValue(c Case) []ev.Finding {
 	var out []ev.Finding
@@ -510,6 +519,45 @@ func checkValue(c Case) []ev.Finding {
 		res.alarms = al.String()
 	}()
 	clean := res.err == nil && res.alarms == ""
+	// Component-wise consistency: the value as the only element of an array
+	// and as the only entry of a typed map of the type gets the verdict it
+	// gets alone (whatever that verdict is; this also binds the cases the
+	// reference leaves undecided, such as integers beyond the int64 range).
+	if v.K != progen.VNull {
+		class := func(err error, alarms string) string {
+			switch {
+			case err != nil:
+				return "refused"
+			case alarms != "":
+				return "alarmed"
+			}
+			return "clean"
+		}
+		alone := class(res.err, res.alarms)
+		nest := func(what string, nt tid, nraw string) {
+			nty := getType(nt)
+			if nty == nil {
+				return
+			}
+			defer func() { recover() }()
+			var al strings.Builder
+			err := nty.IsValidJson(json.RawMessage(nraw), &al, lookup)
+			if got := class(err, al.String()); got != alone {
+				report("validation-depends-on-nesting:"+what+":"+kindOf(), fmt.Sprintf("alone the value is %s, as the only %s of %s it is %s", alone, what, nt.String(), got))
+			}
+		}
+		if t.MapDim == 0 {
+			at := t
+			at.ArrayDim++
+			nest("element", at, "["+c.Json+"]")
+		}
+		if t.MapDim == 0 && t.Tname != "map" {
+			mt := t
+			mt.MapDim = t.ArrayDim + 1
+			mt.ArrayDim = 0
+			nest("entry", mt, `{"k":`+c.Json+"}")
+		}
+	}
 	switch verdictV {
 	case accept:
 		if !clean {
@@ -682,6 +730,20 @@ func main() {
 		os.Exit(2)
 	}
 	lookup = &ast.TypeTable
+	// TypeLookup.Get builds and caches collection types on first use: build
+	// every type the parallel phase can ask for (one array and one map level
+	// beyond the universe) before it starts.
+	for _, b := range bases {
+		for a := int16(0); a <= 4; a++ {
+			lookup.Get(tid{Tname: b, ArrayDim: a})
+			if b != "map" {
+				for m := int16(1); m <= 4; m++ {
+					lookup.Get(tid{Tname: b, MapDim: m})
+					lookup.Get(tid{Tname: b, MapDim: m, ArrayDim: a})
+				}
+			}
+		}
+	}
 	if r.ReplayPath != "" {
 		var c Case
 		if err := ev.LoadReplay(r.ReplayPath, &c); err != nil {
